@@ -390,7 +390,14 @@ func (c *FnCtx) execBuiltin(st *State, in ssa.Instruction, b *ssa.Builtin, cc *s
 		case VSlice:
 			return VInt{v.Len}
 		case VInt: // map
-			return VInt{c.mapLen(st, v.T)}
+			n := c.mapLen(st, v.T)
+			if mt := mapTypeOf(cc.Args[0].Type()); mt != nil && c.mapKeyOK(mt) {
+				// an empty map has no key (and a map with a key is not empty)
+				q := c.fresh("lk")
+				h := sel(c.heapGet(st, mapFamH(mt), mapSort(2, sBool)), v.T)
+				c.assume(st, fmt.Sprintf("(forall ((%s Int)) (! (=> (select %s %s) (< 0 %s)) :pattern ((select %s %s))))", q, h, q, n, h, q))
+			}
+			return VInt{n}
 		}
 	case "cap":
 		if v, ok := args[0].(VSlice); ok {
